@@ -127,6 +127,11 @@ def Vec.find_map {α β} (xs : List α) (f : α → Option β) : Option β := xs
 def RBool.then_some {α} (b : Bool) (a : α) : Option α := if b then some a else none
 def ROpt.unwrap_or {α} (o : Option α) (d : α) : α := o.getD d
 
+/-- `Option<impl Iterator>.into_iter().flatten()`: the items, or nothing -/
+def ROpt.flatten_iter {α} (o : Option (List α)) : List α := o.getD []
+def RIter.skip {α} (xs : List α) (n : Nat) : List α := xs.drop n
+def RIter.take {α} (xs : List α) (n : Nat) : List α := xs.take n
+
 /-- `cranelift_frontend::Switch`: `set_entry` panics when the key is already present, `emit`
     jumps to the block registered for the value or to `otherwise`. (Documented behaviour of
     cranelift-frontend; trusted, not verified.) -/
